@@ -679,12 +679,18 @@ class ObjectMethod(DeserializationMethod):
                     values[key] = data[key]
         if self.validators:
             init = None
+            # field_errors is keyed by aliases, validators dependencies are field names
+            invalid_names = (
+                {f.name for f in self.fields if f.alias in field_errors}
+                if field_errors
+                else set()
+            )
             if self.init_defaults:
                 init = {}
                 for name, default_factory in self.init_defaults:
                     if name in values:
                         init[name] = values[name]
-                    elif not field_errors or name not in field_errors:
+                    elif name not in invalid_names:
                         assert default_factory is not None
                         init[name] = default_factory()
             aliases = values.keys()
@@ -696,7 +702,7 @@ class ObjectMethod(DeserializationMethod):
                 error = ValidationError(errors or [], field_errors or {})
                 invalid_fields = self.post_init_modified
                 if field_errors:
-                    invalid_fields = invalid_fields | field_errors.keys()
+                    invalid_fields = invalid_fields | invalid_names
                 try:
                     validate(
                         ValidatorMock(self.constructor.cls, values),
